@@ -138,6 +138,30 @@ def rule_publish(r):
                 same_dir = True
         r.check(same_dir, F, "make_dll", "temporary %s lives in the cache directory" % src_txt, pst.lineno,
                 "rename is atomic only within one file system: %s" % [pf.unparse(d) for d in defs])
+    # the temporary name is unique to this build: it must be derived, inside make_dll, from a per-process/per-call source
+    UNIQUE = {"os.getpid", "getpid", "tempfile.mkstemp", "mkstemp", "tempfile.mktemp", "tempfile.NamedTemporaryFile",
+              "uuid.uuid4", "uuid4", "uuid.uuid1", "threading.get_ident", "time.time_ns"}
+    for pst, pn in publish:
+        call = [c for c in pf.own_exprs(pst) if isinstance(c, ast.Call) and pf.call_name(c) in PUBLISH][0]
+        src_txt = pf.unparse(call.args[0]) if call.args else "?"
+        seen, work, sources = set(), [src_txt], set()
+        assigns = [s_ for s_ in pf.walk_stmts(fn) if isinstance(s_, ast.Assign)]
+        while work:
+            nm = work.pop()
+            if nm in seen:
+                continue
+            seen.add(nm)
+            for a in assigns:
+                tg = [pf.unparse(t) for t in a.targets] + [pf.unparse(e) for t in a.targets if isinstance(t, ast.Tuple) for e in t.elts]
+                if nm in tg:
+                    for c in pf.calls_in(a.value):
+                        if pf.call_name(c) in UNIQUE:
+                            sources.add(pf.call_name(c))
+                    work.extend(pf.names_in(a.value))
+        r.check(bool(sources), F, "make_dll", "temporary %s is unique per build (%s)" % (src_txt, sorted(sources) or "no per-process source"),
+                pst.lineno, "evaluated inside make_dll at build time" if sources else
+                "the temporary name is not derived, at build time, from the process id or a fresh temporary: processes forked "
+                "after import (or threads) share one name, and one compiler truncates the file another process is about to publish")
     # compile_model raises when the compiler fails or produced nothing
     cm = mod.func("compile_model")
     handlers = [h for h in ast.walk(cm) if isinstance(h, ast.ExceptHandler)]
@@ -182,7 +206,7 @@ def rule_load(r):
 
 
 RULES = [
-    ("R-C18-publish", 6, "cache path published only by rename after a successful compile", rule_publish),
+    ("R-C18-publish", 7, "cache path published only by rename after a successful compile", rule_publish),
     ("R-C18-load", 4, "loader opens only the published path", rule_load),
 ]
 
